@@ -34,7 +34,7 @@ def seeds_table():
             tier = next((x['tier'] for x in r['runs'] if x['rc'] == 1), None)
             chk = sorted({x['check'] for x in r['runs'] if x['rc'] == 1})
             units = ', '.join(sorted({un for x in r['runs'] if x['rc'] == 1 for un in x['units']}))
-            res = 'superseded (now the repaired behaviour, see §9)' if r.get('superseded') else ('caught (' + tier + (', check ' + '+'.join(chk) if chk != [m['property']] else '') + ')') if r['caught'] else ('MISSED' if r['applies'] else 'patch does not apply')
+            res = 'superseded (now the repaired behaviour, see §9)' if r.get('superseded') else 'no longer breaks the property (neutralised by fix ca397ca, see §7)' if r.get('neutralised') else ('caught (' + tier + (', check ' + '+'.join(chk) if chk != [m['property']] else '') + ')') if r['caught'] else ('MISSED' if r['applies'] else 'patch does not apply')
         summary = re.sub(r'\s+', ' ', m.get('summary', ''))[:150].replace('|', '/')
         rows.append(f"| {sid} | {files} | {summary} | {res} | {units} |")
     return "| seed | file | change (abridged from the author's note) | result | reporting units / pinned reproducers |\n|---|---|---|---|---|\n" + "\n".join(rows) + "\n"
